@@ -450,4 +450,6 @@ def run(db, ctx):
     from . import C09
     common.shared_rule(db, ctx, C09.r92, 'R10.7', 'frequency -> weight -> score conversions treat every column on its own: one store per side of the f == 0 test, every column visited '
                        '(shared with R9.2)', ['R9.2'])
+    common.shared_rule(db, ctx, C09.r910, 'R10.9', 'rescale acts on every row with the ratio of each cell\'s own column, so it commutes with the reverse complement '
+                       '(shared with R9.10; seed C10-10: an iterator of ratios shared between rows left the rows after the first unscaled)', ['R9.10'])
     common.shared_rule(db, ctx, C04.stripe_rules, 'R10.8', 'both strands are scored on striped matrices that are the sequences (shared with R4.1 - R4.4; seed C10-9)', ['R4.1', 'R4.2', 'R4.3', 'R4.4'])
